@@ -10,6 +10,7 @@ EXTENDS RegHttp, SequencesExt
 CONSTANTS Rs,        \* retry limits explored
           Prios,     \* priorities a host may get
           Meths,     \* request methods explored
+          Directs,   \* values of Req.DirectURL explored: "none" and/or host names
           Waive      \* sequence handed to (P): <<>> or <<"prio-asc">>
 VARIABLES m, bad
 mvars == <<vars, m, bad>>
@@ -24,17 +25,23 @@ Header == [ev |-> "reset", R |-> conf.R, D |-> 1, up |-> Up, hosts |-> HostSeq,
 \* one logical request: reads may use mirrors or not, may opt out of back-off (IgnoreErr), may
 \* announce the expected length; writes always carry NoMirrors (as every scheme/reg literal should)
 \* oneshot: the body function fails with ErrNotRetryable on its second call (a source that is no io.Seeker)
-ReqOpts == {[meth |-> me, nomir |-> nm, ie |-> ie, expect |-> ex, oneshot |-> os] :
-              me \in Meths, nm \in BOOLEAN, ie \in BOOLEAN, ex \in BOOLEAN, os \in BOOLEAN}
+ReqOpts == {[meth |-> me, nomir |-> nm, ie |-> ie, expect |-> ex, oneshot |-> os, direct |-> di] :
+              me \in Meths, nm \in BOOLEAN, ie \in BOOLEAN, ex \in BOOLEAN, os \in BOOLEAN, di \in Directs}
 ReqOK(q) == /\ q.meth \in {"PUT", "DELETE"} => q.nomir /\ ~q.expect
             /\ q.meth = "HEAD" => ~q.expect
             /\ q.oneshot => q.meth = "PUT"
+            \* a pagination link: a plain GET (the NoMirrors of the repaired literal is derived from LinkEntries)
+            /\ q.direct # "none" => q.meth = "GET" /\ ~q.nomir /\ ~q.ie /\ ~q.expect
 AllConfs == {[R |-> r, dmax |-> 4, prio |-> p, req |-> q] :
                r \in Rs, p \in [Hosts -> Prios], q \in [Ids -> {o \in ReqOpts : ReqOK(o)}]}
 \* equal priorities: the part of the space where the code's host order is the documented one
 EqConfs == {c \in AllConfs : \A g, h \in Hosts : c.prio[g] = c.prio[h]}
 \* requests that use back-off and mirrors (sequences of plain reads on one client)
 PlainConfs == {c \in EqConfs : \A i \in Ids : ~c.req[i].ie /\ ~c.req[i].nomir /\ ~c.req[i].oneshot /\ ~c.req[i].expect}
+\* a listing request followed by the request for its pagination link
+LinkConfs == {c \in EqConfs : /\ \E i \in Ids : c.req[i].direct # "none"
+                              /\ \A i \in Ids : ~c.req[i].ie /\ ~c.req[i].expect /\ ~c.req[i].oneshot
+                                                  /\ (c.req[i].direct = "none" => ~c.req[i].nomir)}
 \* uploads whose body can be sent only once, followed by other traffic (throttle slots after a not-retryable abort)
 OneShotConfs == {c \in EqConfs : \E i \in Ids : c.req[i].oneshot}
 \* generator: at least two such uploads and one plain read, nothing opted out of back-off
